@@ -253,6 +253,37 @@ pub fn run(tier: &str, seed: u64) -> i32 {
                     m.insert(Y::String("condition".into()), Y::String(spaced));
                 }
             }
+            if *sw % 4 == 1 {
+                // the deprecated `string(` spelling of the str() key modifier
+                fn alias(v: &Y) -> Y {
+                    match v {
+                        Y::Mapping(m) => Y::Mapping(
+                            m.iter()
+                                .map(|(k, x)| {
+                                    let k2 = match k.as_str() {
+                                        Some(t) if t.starts_with("str(") => Y::String(t.replacen("str(", "string(", 1)),
+                                        _ => k.clone(),
+                                    };
+                                    (k2, alias(x))
+                                })
+                                .collect(),
+                        ),
+                        Y::Sequence(s) => Y::Sequence(s.iter().map(alias).collect()),
+                        other => other.clone(),
+                    }
+                }
+                if let Y::Mapping(m) = &det {
+                    let cond = m.get(Y::String("condition".into())).cloned();
+                    let mut out = match alias(&det) {
+                        Y::Mapping(x) => x,
+                        _ => unreachable!(),
+                    };
+                    if let Some(c) = cond {
+                        out.insert(Y::String("condition".into()), c);
+                    }
+                    det = Y::Mapping(out);
+                }
+            }
             c.rules = vec![engine::rule_text(&det, &tps, &tps)];
             let mut docs: Vec<_> = recipes.iter().map(|x| gen::build_doc(&r, x)).collect();
             // documents that carry the sensitive strings themselves
